@@ -139,12 +139,12 @@ theorem nonors_marks (N : List Name) (hN : N.Pairwise (· < ·)) : ∀ f : Nat,
           simp only [if_true] at h2; cases h2
           refine ⟨⟨hfr.1, hfr.2⟩, hsame, ?_, fun h' => by cases h'⟩
           simp only [Tidy]
-          exact ⟨htidy, fun hk => by simp [Kr, MT.rank] at hk, fun h' => by cases h'⟩
+          exact ⟨htidy, fun hk => by simp [Kr, MT.rank] at hk, fun h' => absurd rfl h', fun h' => by cases h'⟩
         | false =>
           simp only [Bool.false_eq_true, if_false] at h2; cases h2
           refine ⟨⟨hfr.1, hfr.2⟩, hsame, ?_, fun h' => setViableVal_all h'⟩
           simp only [Tidy]
-          refine ⟨htidy, fun hk ch hch => ?_, fun h' => by cases h'⟩
+          refine ⟨htidy, fun hk ch hch => ?_, fun h' => absurd rfl h', fun h' => by cases h'⟩
           -- a list that counts has no UNKNOWN and (being an AND that did not fail) no UNSATISFIED child
           have hsem := S.sem
           simp only [skel] at hsem
@@ -202,7 +202,7 @@ theorem nonors_marks (N : List Name) (hN : N.Pairwise (· < ·)) : ∀ f : Nat,
           obtain ⟨e1, _, e3⟩ := hearly rfl
           refine ⟨⟨hfr.1, hfr.2⟩, hsame, ?_, fun _ => e1⟩
           simp only [Tidy]
-          refine ⟨htidy, fun _ ch hch => ?_, fun h' => by cases h'⟩
+          refine ⟨htidy, fun _ ch hch => ?_, fun _ => hun, fun h' => by cases h'⟩
           rcases e3 ch hch with h' | h'
           · exact Or.inl h'
           · rcases stored_W (hstored ch hch) with a | a | a
@@ -213,7 +213,7 @@ theorem nonors_marks (N : List Name) (hN : N.Pairwise (· < ·)) : ∀ f : Nat,
           simp only [Bool.false_eq_true, if_false] at h2; cases h2
           refine ⟨⟨hfr.1, hfr.2⟩, hsame, ?_, fun h' => setViableVal_all h'⟩
           simp only [Tidy]
-          refine ⟨htidy, fun hk ch hch => ?_, fun h' => by cases h'⟩
+          refine ⟨htidy, fun hk ch hch => ?_, fun _ => hun, fun h' => by cases h'⟩
           have hne : cs' ≠ [] := by
             simp only [skel] at hsem
             intro e; subst e; exact hsem.1 rfl
